@@ -248,7 +248,10 @@ Fixpoint run (st : lst) (ops : list lop) : option lst :=
   end.
 
 (* run + comparison of every value written with the value the implementation wrote *)
-Definition vclose (tol x y : T) : bool := nabs (x - y) <=? tol * (n1 + nabs y).
+(* ABSOLUTE tolerance: the float error of a written value is a few ulps of the LARGEST operand that entered
+   the update (huge rewards of opposite sign can cancel to a small value), so the harness passes
+   tol = 1e-13 * (largest magnitude among rewards / heuristic / values), not a bound relative to the value *)
+Definition vclose (tol x y : T) : bool := nabs (x - y) <=? tol.
 
 Fixpoint run_cmp (tol : T) (st : lst) (ops : list (lop * T)) : option (lst * bool) :=
   match ops with
